@@ -65,46 +65,52 @@ func (x *searcher) lineChunkings(r *vlib.Run, maxLen int) {
 	r.Parallel(len(texts), func(i int) {
 		text := texts[i]
 		want := expectedLines(text)
-		for _, comp := range compositions(text) {
-			var got []string
-			var seq []string
-			x.withRoot(func(root string) {
-				os.RemoveAll(root)
-				for n, c := range files {
-					os.MkdirAll(filepath.Dir(filepath.Join(root, n)), 0o755)
-					os.WriteFile(filepath.Join(root, n), []byte(c), 0o644)
+		for ci, comp := range compositions(text) {
+			for _, reuse := range []bool{false, true} {
+				if reuse && len(comp) < 2 {
+					continue
 				}
-				rec := newRecorder()
-				be := &bodyEnv{root: root, fail: map[string]bool{}, chunks: comp}
-				proj, err := dawn.Load(root, &dawn.LoadOptions{Events: rec, Builtins: be.builtins()})
-				if err != nil {
-					vlib.Fatalf("line-writer project does not load: %v", err)
-				}
-				l, _ := label.Parse("//:t")
-				rec.ev = nil
-				if err := proj.Run(l, nil); err != nil {
-					vlib.Fatalf("line-writer project does not build: %v", err)
-				}
-				for _, e := range rec.ev {
-					if e.Label == "//:t" {
-						seq = append(seq, e.Kind)
-						if e.Kind == "Print" {
-							got = append(got, e.Line)
+				_ = ci
+				var got []string
+				var seq []string
+				x.withRoot(func(root string) {
+					os.RemoveAll(root)
+					for n, c := range files {
+						os.MkdirAll(filepath.Dir(filepath.Join(root, n)), 0o755)
+						os.WriteFile(filepath.Join(root, n), []byte(c), 0o644)
+					}
+					rec := newRecorder()
+					be := &bodyEnv{root: root, fail: map[string]bool{}, chunks: comp, reuse: reuse}
+					proj, err := dawn.Load(root, &dawn.LoadOptions{Events: rec, Builtins: be.builtins()})
+					if err != nil {
+						vlib.Fatalf("line-writer project does not load: %v", err)
+					}
+					l, _ := label.Parse("//:t")
+					rec.ev = nil
+					if err := proj.Run(l, nil); err != nil {
+						vlib.Fatalf("line-writer project does not build: %v", err)
+					}
+					for _, e := range rec.ev {
+						if e.Label == "//:t" {
+							seq = append(seq, e.Kind)
+							if e.Kind == "Print" {
+								got = append(got, e.Line)
+							}
 						}
 					}
+				})
+				cases.Add(1)
+				ok := len(got) == len(want)
+				for k := 0; ok && k < len(got); k++ {
+					ok = got[k] == want[k]
 				}
-			})
-			cases.Add(1)
-			ok := len(got) == len(want)
-			for k := 0; ok && k < len(got); k++ {
-				ok = got[k] == want[k]
-			}
-			if !ok {
-				x.r.Violation("C18:lines:wrong-lines", fmt.Sprintf("text %q written as chunks %q was delivered as lines %q, expected %q", text, comp, got, want),
-					map[string]any{"text": text, "chunks": comp, "got": got, "want": want})
-			}
-			if len(seq) < 2 || seq[0] != "Evaluating" || seq[len(seq)-1] != "Succeeded" {
-				x.r.Violation("C18:lines:print-outside-evaluation", fmt.Sprintf("event sequence %v for text %q", seq, text), map[string]any{"text": text, "chunks": comp, "events": seq})
+				if !ok {
+					x.r.Violation("C18:lines:wrong-lines", fmt.Sprintf("text %q written as chunks %q (writer reuses its buffer: %v) was delivered as lines %q, expected %q", text, comp, reuse, got, want),
+						map[string]any{"text": text, "chunks": comp, "reused_buffer": reuse, "got": got, "want": want})
+				}
+				if len(seq) < 2 || seq[0] != "Evaluating" || seq[len(seq)-1] != "Succeeded" {
+					x.r.Violation("C18:lines:print-outside-evaluation", fmt.Sprintf("event sequence %v for text %q", seq, text), map[string]any{"text": text, "chunks": comp, "events": seq})
+				}
 			}
 		}
 	})
